@@ -29,12 +29,12 @@ def bounds(tier):
                 "big": "B=2**32, letters {1, 2**31-1, 2**31, 2**31+1, 2**32-1, 2**32}: all sequences of 1..4 (ff/bf), multisets of 1..5 (ffd/bfd/bc); the same letters divided by 2**32 with B=1 (fit heuristics)",
                 "count-sweep": "for every m in 1..40: m items of 6 (B=10) alone / with m fours / with fours and threes / with 2m ones: 4 fit heuristics in 3 orders, bin-completion, all output types",
                 "long-thin": "multisets of 9..15 items over {1,2} (B=5), {1,2,3} (B=7), {2,3,5} (B=10), {0,1,4} (B=4): ff/bf in 6 fixed orders, ffd/bfd/bc"}
-    return {"ff/bf": "all sequences of 1..7 items over 0..6, B=6; all sequences of 1..5 over (0,1,2,3,4,5,7,10), B=10",
-            "ffd/bfd/bc": "all multisets of 1..10 items over 0..6 (B=6), 1..8 over 0..10 (B=10), 1..7 over 0..12 (B=12), 1..8 over {0,1,3,5,7,10,13,20} (B=20), 1..10 over 1..10 (B=20)",
-            "dyadic": "all sequences of 1..6 items over {0,1/8,..,1}, B=1; grain 2**-32: sequences of 1..6",
-            "output types": "all 10 on multisets of 1..6 items over 0..6, B=6",
-            "halves": "multiples of 1/2 around B/2 and B (B=7, B=10): sequences of 1..6, multisets of 5..9; four fit heuristics",
-            "big": "B=2**32, letters {1, 2**31-1, 2**31, 2**31+1, 2**32-1, 2**32}: all sequences of 1..6 (ff/bf), multisets of 1..7 (ffd/bfd/bc); the same letters divided by 2**32 with B=1 (fit heuristics)",
+    return {"ff/bf": "all sequences of 1..8 items over 0..6, B=6; all sequences of 1..5 over (0,1,2,3,4,5,7,10), B=10",
+            "ffd/bfd/bc": "all multisets of 1..11 items over 0..6 (B=6), 1..9 over 0..10 (B=10), 1..8 over 0..12 (B=12), 1..9 over {0,1,3,5,7,10,13,20} (B=20), 1..10 over 1..10 (B=20)",
+            "dyadic": "all sequences of 1..7 items over {0,1/8,..,1}, B=1; grain 2**-32: sequences of 1..7",
+            "output types": "all 10 on multisets of 1..7 items over 0..6, B=6",
+            "halves": "multiples of 1/2 around B/2 and B (B=7, B=10): sequences of 1..7, multisets of 5..10; four fit heuristics",
+            "big": "B=2**32, letters {1, 2**31-1, 2**31, 2**31+1, 2**32-1, 2**32}: all sequences of 1..7 (ff/bf), multisets of 1..8 (ffd/bfd/bc); the same letters divided by 2**32 with B=1 (fit heuristics)",
             "count-sweep": "for every m in 1..140: m items of 6 (B=10) alone / with m fours / with fours and threes / with 2m ones: 4 fit heuristics in 3 orders, bin-completion, all output types",
             "long-thin": "multisets of 9..24 items over {1,2} (B=5), 9..16 over {1,2,3} (B=7), 9..14 over {2,3,5} (B=10), 9..14 over {0,1,4} (B=4): ff/bf in 6 fixed orders, ffd/bfd/bc"}
 
@@ -47,7 +47,7 @@ LONG_THIN = [((1, 2), 9, 24, 5), ((1, 2, 3), 9, 16, 7), ((2, 3, 5), 9, 14, 10), 
 def tasks(tier):
     q = tier == "quick"
     ts = []
-    for ch in spaces.chunked(spaces.sequences(range(0, 7), 1, 5 if q else 7), 2500):
+    for ch in spaces.chunked(spaces.sequences(range(0, 7), 1, 5 if q else 8), 2500):
         ts.append(("seq-fit", ch, 6))
     if q:
         for ch in scopes.chunk_multisets(range(0, 11), 1, 6, 400):
@@ -56,31 +56,31 @@ def tasks(tier):
         for ch in spaces.chunked(spaces.sequences((0, 1, 2, 3, 4, 5, 7, 10), 1, 5), 2500):
             ts.append(("seq-fit", ch, 10))
     dec = [(range(0, 7), 7, 6), (range(0, 11), 6, 10), (range(1, 11), 8, 20)] if q else \
-          [(range(0, 7), 10, 6), (range(0, 11), 8, 10), (range(0, 13), 7, 12), ((0, 1, 3, 5, 7, 10, 13, 20), 8, 20), (range(1, 11), 10, 20)]
+          [(range(0, 7), 11, 6), (range(0, 11), 9, 10), (range(0, 13), 8, 12), ((0, 1, 3, 5, 7, 10, 13, 20), 9, 20), (range(1, 11), 10, 20)]
     for alpha, N, B in dec:
         for ch in scopes.chunk_multisets(alpha, 1, N, 300):
             ts.append(("ms-dec", ch, B))
         for ch in scopes.chunk_multisets(alpha, 1, N, 120):
             ts.append(("ms-bc", ch, B))
     eighths = [Fraction(i, 8) for i in range(9)]
-    for ch in spaces.chunked(spaces.sequences(eighths, 1, 4 if q else 6), 1500):
+    for ch in spaces.chunked(spaces.sequences(eighths, 1, 4 if q else 7), 1500):
         ts.append(("dyadic", ch, 1))
-    for ch in scopes.chunk_multisets(range(0, 7), 1, 4 if q else 6, 60):
+    for ch in scopes.chunk_multisets(range(0, 7), 1, 4 if q else 7, 60):
         ts.append(("outs", ch, 6))
     # magnitudes at which a relative tolerance, a float32 or an int32 would bite: near-miss sums around a 2**32 bin,
     # and the same pattern scaled down to fractions with a 2**-32 grain (all exactly representable, all sums exact)
-    for ch in spaces.chunked(spaces.sequences(BIG_LETTERS, 1, 4 if q else 6), 400):
+    for ch in spaces.chunked(spaces.sequences(BIG_LETTERS, 1, 4 if q else 7), 400):
         ts.append(("big-fit", ch, BIG_B))
-    for ch in scopes.chunk_multisets(BIG_LETTERS, 1, 5 if q else 7, 200):
+    for ch in scopes.chunk_multisets(BIG_LETTERS, 1, 5 if q else 8, 200):
         ts.append(("ms-dec", ch, BIG_B))
         ts.append(("ms-bc", ch, BIG_B))
     fine = [Fraction(v, BIG_B) for v in BIG_LETTERS]
-    for ch in spaces.chunked(spaces.sequences(fine, 1, 4 if q else 6), 400):
+    for ch in spaces.chunked(spaces.sequences(fine, 1, 4 if q else 7), 400):
         ts.append(("dyadic", ch, 1))
     for Bh, letters in scopes.HALVES.items():          # multiples of 1/2 around B/2 and B, odd and even bin size
-        for ch in spaces.chunked(spaces.sequences(letters, 1, 4 if q else 6), 600):
+        for ch in spaces.chunked(spaces.sequences(letters, 1, 4 if q else 7), 600):
             ts.append(("halves", ch, Bh))
-        for ch in scopes.chunk_multisets(letters, 5, 7 if q else 9, 300):
+        for ch in scopes.chunk_multisets(letters, 5, 7 if q else 10, 300):
             ts.append(("halves", ch, Bh))
     # many items over tiny alphabets: bins of many items, long scans over many open bins
     for alpha, lo, hi, B in LONG_THIN:
